@@ -78,16 +78,26 @@ def render_fasta_for(rng, scaffolds, width=None, crlf=False, void_record=False):
     another fragment."""
     width = width or rng.choice([7, 10, 50, 60, 61, 80])
     out = io.StringIO()
+    soft = rng.random() < 0.25      # soft-masked (lower case) stretches
+    iupac = rng.random() < 0.2      # ambiguity codes instead of N in gaps
+    described = rng.random() < 0.3  # descriptions after the sequence name
     for sc in scaffolds:
         seq = []
         for r in sc["rows"]:
             if r[0] == "G":
-                seq.append("N" * r[1])
+                if iupac:
+                    seq.append("".join(rng.choice("NNnRYKMSW") for _ in range(r[1])))
+                else:
+                    seq.append("N" * r[1])
             else:
-                seq.append("".join(rng.choice(_ACGT) for _ in range(r[3] - r[2] + 1)))
+                frag = "".join(rng.choice(_ACGT) for _ in range(r[3] - r[2] + 1))
+                if soft and rng.random() < 0.5:
+                    k = rng.randrange(len(frag) + 1)
+                    frag = frag[:k].lower() + frag[k:]
+                seq.append(frag)
         s = "".join(seq)
         nl = "\r\n" if crlf else "\n"
-        out.write(">" + sc["name"] + nl)
+        out.write(">" + sc["name"] + (rng.choice([" len=%d" % len(s), "\tcurated scaffold ", " x y z"]) if described else "") + nl)
         for j in range(0, len(s), width):
             out.write(s[j:j + width] + nl)
     if void_record:
@@ -109,9 +119,13 @@ def merge_adjacent_fragments(scaffolds):
     return scaffolds
 
 
-def render_tpf(scaffolds):
+def render_tpf(scaffolds, decorated=False):
     out = io.StringIO()
-    for sc in scaffolds:
+    if decorated:
+        out.write("## made by a pipeline\n##\n\n")
+    for k, sc in enumerate(scaffolds):
+        if decorated and k:
+            out.write("\n")
         for r in sc["rows"]:
             if r[0] == "G":
                 t = {"scaffold": "TYPE-2", "contig": "TYPE-3"}.get(r[2], r[2].upper().replace("_", "-"))
@@ -351,7 +365,7 @@ def gen_workload(rng, fasta_backed=True, tagging=True, haps=None, rich_tags=Fals
         "bpt": bpt,
         "scaffolds": scaffolds,
         "map": m,
-        "tpf": render_tpf(scaffolds),
+        "tpf": render_tpf(scaffolds, decorated=rng.random() < 0.3),
         "agp": render_agp(scaffolds),
         "pretext_agp": render_pretext_agp(m),
     }
